@@ -46,7 +46,7 @@ fn normalise_addr(s: &str) -> String {
             while j < b.len() && (b[j].is_ascii_digit() || (b'a'..=b'f').contains(&b[j])) {
                 j += 1;
             }
-            if j > i + 2 {
+            if j >= i + 2 + 6 {
                 out.extend_from_slice(b"[MEMADDR]");
                 i = j;
                 continue;
